@@ -78,6 +78,10 @@ func (r *responseWriter) WriteHeader(statusCode int) {
 	if !r.wroteHeader {
 		r.wroteHeader = true
 		r.statusCode = statusCode
+		// HTTP/1.0 has no transfer codings: the body is delimited by closing the connection
+		if !r.request.ProtoAtLeast(1, 1) {
+			r.Header().Del("Transfer-Encoding")
+		}
 		fmt.Fprintf(r.writer, "HTTP/%d.%d %d OK\r\n", r.request.ProtoMajor, r.request.ProtoMinor, statusCode)
 		for key, values := range r.Header() {
 			for _, value := range values {
